@@ -134,6 +134,19 @@ CLAIMS = {
         note="Trusted: TLC, mutation operators in props/c07.py. Only internal exceptions and the validator's behaviour are "
              "judged; accept/reject disagreements with the specification are counted in the evidence and left to C01/C03.",
         technique="TLA+ line grammar + loader spec (no internal outcome, terminates) checked by TLC on mutated inputs; executions on the code must stay in the spec's outcome space"),
+    "C12": dict(
+        text="For schemas with abstract types and implementing / extending / unrelated concrete types TLC runs the loader "
+             "specification on every text of a few lines over %import of generated component packages (and of names that are "
+             "no component) and headers of every schema and package type; each is replayed on the real code with the packages "
+             "on sys.path (slot admits exactly the implementers, from the importing line onward, idempotent, refused for "
+             "non-components). Sessions of up to 4 loads against one schema object are recorded (outcome and implementer table "
+             "after every load) and validated by TLC against MC_ZSession: every outcome equals the specification's outcome of "
+             "that load alone and the schema's description does not change.",
+        design="3 (C12), 1.3 D9",
+        note="Trusted: TLC, generated packages (harness/zcv/packages.py), digest of the real schema object. Known finding D9: "
+             "imported implementer names leak into the application schema's abstract types (reported as KNOWN-FINDING; any "
+             "other change of the schema or any outcome that depends on history is a VIOLATION).",
+        technique="TLA+ loader spec (slot search, %import) model-checked on enumerated texts and replayed; TLC trace validation of recorded load sessions"),
 }
 
 NOT_YET = "check not built yet (construction order in DESIGN.md section 8)"
